@@ -21,9 +21,14 @@ from workload import (  # noqa: E402
     TaskState, Workload, WorkProfile,
 )
 
+class AdapterError(Exception):
+    """The adapter itself cannot interpret what the implementation built (unknown name, non-integral coefficient ...)."""
+
+
 LG = implutil.quiet_logger()
 US = EventTime.Unit.US
 ORIG_OPT = gp.Model.optimize
+ORIG_ADD = ILPScheduler._add_variables
 CUR = {}
 
 
@@ -70,7 +75,7 @@ def key_of(name, patterns):
         m = rx.match(name)
         if m:
             return f(m)
-    raise SystemExit("ilp adapter: cannot parse the name %r" % name)
+    raise AdapterError("ilp adapter: cannot parse the name %r" % name)
 
 
 def vkey(v):
@@ -80,7 +85,7 @@ def vkey(v):
 def zint(x):
     r = int(round(x))
     if abs(x - r) > 1e-9:
-        raise SystemExit("ilp adapter: non-integral coefficient %r" % x)
+        raise AdapterError("ilp adapter: non-integral coefficient %r" % x)
     return r
 
 
@@ -119,7 +124,7 @@ def dump_model(m):
     vs = []
     for v in m.getVars():
         if v.VType not in ("B", "I"):
-            raise SystemExit("ilp adapter: variable %s has type %s" % (v.VarName, v.VType))
+            raise AdapterError("ilp adapter: variable %s has type %s" % (v.VarName, v.VType))
         vs.append([vkey(v), 0 if v.VType == "B" else 1, bound(v.LB), bound(v.UB)])
     vs.sort()
     lin = []
@@ -137,7 +142,7 @@ def dump_model(m):
             r, ops = m.getGenConstrAnd(g)
             ands.append([k, vkey(r), sorted(vkey(o) for o in ops)])
         else:
-            raise SystemExit("ilp adapter: unexpected general constraint type %s" % g.GenConstrType)
+            raise AdapterError("ilp adapter: unexpected general constraint type %s" % g.GenConstrType)
     ind.sort()
     ands.sort()
     qs = []
@@ -148,7 +153,7 @@ def dump_model(m):
     qs.sort()
     o = m.getObjective()
     if m.ModelSense != GRB.MAXIMIZE:
-        raise SystemExit("ilp adapter: the objective is not maximised")
+        raise AdapterError("ilp adapter: the objective is not maximised")
     if isinstance(o, gp.QuadExpr):
         le = o.getLinExpr()
         obj = [lin_terms(le), quad_terms(o), zint(le.getConstant())]
@@ -348,7 +353,7 @@ def build_world(w):
             t.update_remaining_time(EventTime.zero())
             t.finish(et(td["completed"]))
             continue
-        raise SystemExit("unknown task state %r" % st)
+        raise AdapterError("unknown task state %r" % st)
     return workload, wps, workers, tasks
 
 
@@ -382,7 +387,7 @@ def run_case(w):
     sched._logger = LG
     sched._allowed_to_miss_deadlines = set("g%d" % g for g in cfg.get("allowed0", []))
     seen = {}
-    orig_add = ILPScheduler._add_variables
+    orig_add = ORIG_ADD
 
     def spy(self, sim_time, optimizer, workload_, tlist, workers_):
         seen["order"] = [int(t.name[1:]) for t in tlist]
@@ -412,15 +417,26 @@ def run_case(w):
                     for i in tasks}
     try:
         placements = sched.schedule(et(w["now"]), workload, wps)
+    except AdapterError as e:
+        ILPScheduler._add_variables = orig_add
+        res["adapter_error"] = str(e)[:600]
+        if "order" in seen:
+            res["seen_order"] = seen["order"]
+        return res
     except Exception as e:      # noqa: BLE001
         ILPScheduler._add_variables = orig_add
+        import traceback
         res["error"] = "%s: %s" % (type(e).__name__, str(e)[:300])
+        res["traceback"] = traceback.format_exc()[-1500:]
+        if "order" in seen:
+            res["seen_order"] = seen["order"]
         return res
     ILPScheduler._add_variables = orig_add
     after = snapshot(workers, tasks)
     res["unchanged"] = int(before == after)
-    if "order" in seen and seen["order"] != res["order"]:
-        raise SystemExit("ilp adapter: the planner saw another task list than offered + previously placed")
+    if "order" in seen:
+        # what the planner fed to its model; compared by the harness with offered + previously placed (res["order"])
+        res["seen_order"] = seen["order"]
     widx = {wk.id: i + 1 for i, wk in enumerate(workers)}
     pool_ids = {p.id for p in wps.worker_pools}
     plan = []
@@ -448,5 +464,13 @@ def run_case(w):
 
 out = []
 for w in payload["cases"]:
-    out.append(run_case(w))
+    try:
+        out.append(run_case(w))
+    except BaseException as e:      # noqa: BLE001  a failure on one world is recorded for that world only
+        import traceback
+        out.append({"adapter_error": "%s: %s" % (type(e).__name__, str(e)[:400]), "traceback": traceback.format_exc()[-1500:]})
+        try:
+            ILPScheduler._add_variables = ORIG_ADD
+        except Exception:      # noqa: BLE001
+            pass
 implutil.end({"results": out})
